@@ -52,6 +52,15 @@ let () =
       if List.length zs <> nk + nv then "BADCASE"
       else show_sort (srt_sliceby_z (z_of_string mode) (take nk zs) (take nv (drop nk zs)))
     | _ -> "BADCASE");
+  (* c15V ktype M K_1..K_n : the less callback of the implementation side compares (key, value) pairs
+     lexicographically, k = K / M, v = K mod M; in the model that is the plain order on the composite keys
+     K with the values v carried along (the model's less sees keys only; a pair order IS a key order on K) *)
+  Registry.register "c15V" (fun toks -> match toks with
+    | _ :: m :: rest ->
+      let m = int_of_string m in
+      let ks = List.map int_of_string rest in
+      show_sort (srt_sliceby_z (z_of_string "0") (List.map (fun k -> z_of_string (string_of_int k)) ks) (List.map (fun k -> z_of_string (string_of_int (k mod m))) ks))
+    | _ -> "BADCASE");
   (* c15N ... : same case format as c15S, run by the model variant WITHOUT the depth limit
      (canary: must differ from the real code on killer inputs) *)
   Registry.register "c15N" (fun toks -> match toks with
